@@ -17,7 +17,7 @@ add("C19", "slice_transpose, slice_addElement_same/other, addElement_structure, 
 
 add("C16", "generate_valid, valid_iff, replace_nil/only_named/WF, equality is an equivalence that distinguishes every attribute, "
            "nested_eq_iff_children, toGym_member proved for all specs/values over a transliteration of specs.py; random spec trees and "
-           "boundary values run through the real specs and the model", _note)
+           "boundary values (arrays and weakly typed Python scalars) run through the real specs and the model", _note)
 
 add("C18", "the regex matcher is proved equal to the documented grammar (sound + complete, any string, abstract character classes), "
            "round trip / normalisation, registry state machine laws; shipped ids generated from jumanji/__init__.py and checked by "
@@ -49,11 +49,13 @@ add("C11", "constructor wiring `self.time_limit = …` and the `done` comparison
     "environments, by their L1 models.", technique="Lean 4 theorems over source-generated wiring/comparison + first-LAST search on real environments")
 add("C15", "adapter state machines over an arbitrary Env and free keys: reset_uses_schedule (i-th reset after seeding uses left(right^i(seed))), reseed_reproducible, "
            "step_relays (terminated iff discount = 0, truncated iff LAST), multiToSingle_only_aggregates; real Gym/dm_env/MultiToSingle adapters on every catalogue "
-           "environment vs the native API driven with the key terms the model prescribes (evaluated with the real jax.random.split)", _wnote)
+           "environment (also with fractional discounts: mean aggregator, halved discounts) vs the native API driven with the key terms the model prescribes (evaluated with the real jax.random.split)", _wnote)
 
 add("C10", "certificate => advertised invariant theorems per generator (recursive-division certificate => all free cells 4-connected and even cells free; "
            "random walk from the goal => reachable and solvable for every draw tape; tril+transpose => symmetric loop-free graph; generator post-conditions for "
-           "valid draws); the Lean-defined certificates are evaluated on the instances the real generators produce for many keys; key dependence checked",
+           "valid draws); the shipped Sudoku databases (11 000 boards) regenerated into Gen/SudokuDB*.lean and proved conflict-free / in range / not full by "
+           "decide +kernel per chunk lifted by fastOK_sound; Connector: the route certificate yields an explicit, mask-legal, collision-free solving episode; the "
+           "Lean-defined certificates are evaluated on the instances the real generators produce for many keys; key dependence checked",
     _note + " PRNG draws are parameters: theorems quantify over all draws in the stated support; that real draws lie in the support is checked per instance.")
 
 add("C01", "the declared specs of every catalogue configuration are generated from the real spec objects into Gen/Specs.lean and proved well-formed with "
@@ -70,8 +72,10 @@ add("C17", "RubiksCube for ALL n: rubik_l1_move_is_physical (the transliterated 
 
 add("C02", "scan_eq_rollout, rollout_append, vmap_step_get/reset_get over an arbitrary Env (in the model reset/step are functions: purity by construction); the "
            "property is DECIDED by the differential run: one reachable transition per configuration executed as eager / jit / vmap(1,2,5 at a random index) / "
-           "scan(1,3) / fresh instance / after interleaved calls / re-jit, all compared with the single value a pure function prescribes; argument contents "
-           "snapshotted; jaxprs effect-free, callback-free and stable",
+           "scan(1,3) / fresh instance / after interleaved calls / re-jit, all compared with the single value a pure function prescribes; the same for the LAST "
+           "transition of a mask-following episode and for boundary transitions (solving moves of the puzzles at sizes 2..12); every configuration (and sibling "
+           "configurations sharing derived sizes) also built in reverse order in a fresh process and compared (call-history independence); argument contents "
+           "snapshotted; results re-checked after later calls; jaxprs effect-free, callback-free and stable",
     "partial by nature: Python-side hidden state, in-place mutation and XLA/transform-dependent numerics cannot be exhibited by a Lean model; they are covered by "
     "the differential run only (floats within 2e-5). Eager reset of the recursive-division maze generators (Maze, Cleaner) is skipped: it needs minutes.",
     technique="differential execution of program variants against the pure reference (translation validation) + Lean algebra of scan/vmap/rollout", cat="translation_validation")
